@@ -270,7 +270,7 @@ pub fn run(ctx: &mut Ctx) {
                 c.next().map(|f| f.to_ascii_uppercase().to_string() + c.as_str()).unwrap_or_default()
             };
             for t in [t.to_string(), t.to_ascii_uppercase(), capitalised] {
-                for form in [t.clone(), format!("name{t}"), format!("{t}name"), format!("a/b/name{t}"), format!("g:a:name{t}"), format!("a/b/{t}"), format!("name{t}/x"), format!("{t}/Foo/bar"), format!("x/{t}/y/name")] {
+                for form in [t.clone(), format!("name{t}"), format!("{t}name"), format!("a/b/name{t}"), format!("g:a:name{t}"), format!("a/b/{t}"), format!("name{t}/x"), format!("{t}/Foo/bar"), format!("x/{t}/y/name"), format!("g:a:{t}"), format!("g:{t}"), format!("g:{t}:a"), format!("{t}:a"), format!("org.x:lib:{t}"), format!("name/{t}"), format!("name@{t}"), format!("{t}:{t}"), format!("{t}/{t}")] {
                     for ty in &types {
                         split_case(ctx, ty, &form, "dictionary-tokens");
                     }
